@@ -368,6 +368,31 @@ func runProp(prop, modeName, tier string, seed uint64, outPath, replayDir, known
 						return
 					}
 					diffs, mons := relevant(ps, v)
+					if (len(diffs) > 0 || len(mons) > 0) && watchdogExpired(t) && confirmedHangs.Load() < 3 {
+						// a wall-clock limit expired: execute the case again with every limit
+						// multiplied; only a complaint that shows again is reported
+						wdSlow.Add(1)
+						t2, err2 := j.spec.Run(keep)
+						wdSlow.Add(-1)
+						if err2 == nil {
+							if v2, err3 := drv.Check(t2); err3 == nil {
+								d2, m2 := relevant(ps, v2)
+								if len(d2) == 0 && len(m2) == 0 {
+									mu.Lock()
+									sum.Cov["watchdog.expired-under-load-not-reproduced"]++
+									mu.Unlock()
+									t, v, diffs, mons = t2, v2, d2, m2
+								} else {
+									t, v, diffs, mons = t2, v2, d2, m2
+									if watchdogExpired(t2) {
+										confirmedHangs.Add(1)
+									}
+								}
+							} else {
+								drv, _ = StartDriver()
+							}
+						}
+					}
 					mu.Lock()
 					sum.Cases++
 					sum.Steps += len(keep)
